@@ -434,6 +434,8 @@ func (p *parser) parseDotMember(left ast.Expression) ast.Expression {
 		return &ast.BadExpression{From: period, To: p.idx}
 	}
 
+	// A keyword used as a property name can end a statement like any identifier.
+	p.insertSemicolon = true
 	p.next()
 
 	return &ast.DotExpression{
